@@ -160,38 +160,51 @@ def run_one(factory, case, prefix, max_passes=2000, seen=None, bound=None):
 
 
 def explore(factory, case, bound, max_execs=200000, max_passes=2000, prune=False, on_exec=None):
-    """Enumerate every execution with <= bound deviations. Returns stats dict."""
+    """Enumerate every execution with <= bound deviations, *bound by bound* (0, then 1, then 2 ...): each level is a
+    depth-first walk that reports only the executions with exactly that many deviations (the shallower ones are
+    re-run as inner nodes - cheap, the levels grow geometrically).  If `max_execs` runs are used up, the walk stops:
+    stats["completed_bound"] is the last bound whose executions were all explored, stats["truncated"] is set, and
+    what was reported of the next level is a prefix of it in DFS order.  Returns the stats dict."""
     stats = {"executions": 0, "passes": 0, "choice_points": 0, "capped": 0, "pruned": 0,
-             "max_points": 0, "truncated": False, "hung": False}
+             "max_points": 0, "truncated": False, "hung": False, "completed_bound": -1, "runs": 0}
     seen = {} if prune else None
-    stack = [[]]
-    while stack:
-        prefix = stack.pop()
-        ex = run_one(factory, case, prefix, max_passes=max_passes, seen=seen, bound=bound)
-        stats["executions"] += 1
-        stats["passes"] += ex.passes
-        stats["choice_points"] += max(0, len(ex.points) - len(prefix))
-        stats["max_points"] = max(stats["max_points"], len(ex.points))
-        stats["capped"] += ex.capped
-        stats["pruned"] += ex.pruned
-        if on_exec is not None:
-            on_exec(ex)
-        if any(sig.endswith(":execution-does-not-terminate") for sig, _m in ex.problems):
-            # every further schedule of this scenario would cost a full budget: the violation is recorded, stop here
+    for level in range(bound + 1):
+        stack = [([], 0)]
+        aborted = False
+        while stack:
+            prefix, devs = stack.pop()
+            if stats["runs"] >= max_execs:
+                aborted = True
+                break
+            ex = run_one(factory, case, prefix, max_passes=max_passes, seen=seen, bound=bound)
+            stats["runs"] += 1
+            if devs == level:
+                stats["executions"] += 1
+                stats["passes"] += ex.passes
+                stats["choice_points"] += max(0, len(ex.points) - len(prefix))
+                stats["max_points"] = max(stats["max_points"], len(ex.points))
+                stats["capped"] += ex.capped
+                stats["pruned"] += ex.pruned
+                if on_exec is not None:
+                    on_exec(ex)
+                if any(sig.endswith(":execution-does-not-terminate") for sig, _m in ex.problems):
+                    # every further schedule of this scenario would cost a full budget: the violation is recorded, stop here
+                    stats["truncated"] = True
+                    stats["hung"] = True
+                    return stats
+                continue            # its children belong to the next level
+            # an inner node of this level's walk: deviate once more at each choice point after the prefix
+            for i in range(len(prefix), len(ex.points)):
+                labels, chosen, devs_before = ex.points[i]
+                if devs_before + 1 > level:
+                    continue
+                base = [(l, c) for (l, c, _d) in ex.points[:i]]
+                for alt in range(len(labels) - 1, 0, -1):
+                    stack.append((base + [(labels, alt)], devs + 1))
+        if aborted:
             stats["truncated"] = True
-            stats["hung"] = True
             break
-        if stats["executions"] >= max_execs:
-            stats["truncated"] = bool(stack)
-            break
-        # children: deviate at each choice point after the prefix
-        for i in range(len(prefix), len(ex.points)):
-            labels, chosen, devs_before = ex.points[i]
-            if devs_before + 1 > bound:
-                continue
-            base = [(l, c) for (l, c, _d) in ex.points[:i]]
-            for alt in range(len(labels) - 1, 0, -1):
-                stack.append(base + [(labels, alt)])
+        stats["completed_bound"] = level
     return stats
 
 
